@@ -266,6 +266,7 @@ func C08(c *vlib.Ctx) {
 	dir := c.Scratch()
 	c08BlankSecretSources(c, dir)
 	c08RotatedSecretReload(c, dir)
+	c08EmptyHMACBlock(c, dir)
 	mock := newFwdMock()
 	defer mock.srv.Close()
 	nCfg := c.N(60, 2500)
